@@ -118,6 +118,25 @@ def api_case(ctx, cls, ts, st, en, scale, st2=None, en2=None):
             ctx.fail("oracle", "TsGroup.restrict keys/metadata changed", inp, impl=[list(r.keys()), list(r.get_info("lab"))])
         if iset_ns(r.time_support) != (sst, sen):
             ctx.fail("oracle", "TsGroup.restrict support != ep", inp, impl=iset_ns(r.time_support), expected=(sst, sen))
+        # the same group on its DEFAULT support [first, last] (ep often touches it in one instant only, with a spike on it), and on a
+        # support with a gap between two consecutive timestamps p < q restricted to exactly [p, q]
+        d = sorted(set(ts))
+        if len(d) >= 2:
+            variants = [("default support", None, ep, (sst, sen))]
+            j = (len(ts) * 7 + len(st)) % (len(d) - 1)
+            pq = iset([d[j]], [d[j + 1]], scale)
+            variants.append(("support with the gap (p, q), ep = [p, q]", iset([d[0] - 1, d[j + 1]], [d[j], d[-1] + 1], scale), pq, iset_ns(pq)))
+            for vname, sup_, ep_, (a_, b_) in variants:
+                try:
+                    g2 = nap.TsGroup({3: nap.Ts(farr(ts, scale)), 7: nap.Ts(farr(ts[::2], scale))}, **({} if sup_ is None else dict(time_support=sup_)))
+                except RuntimeError:
+                    continue      # union of supports empty (member 7 one-instant and so on)
+                held = {key: ns_arr(g2[key].t) for key in (3, 7)}
+                r2 = g2.restrict(ep_)
+                for key in (3, 7):
+                    e = [held[key][i] for i in brute(held[key], a_, b_)]
+                    if ns_arr(r2[key].t) != e:
+                        ctx.fail("oracle", "TsGroup.restrict (%s) member %d" % (vname, key), dict(inp, variant=vname), impl=ns_arr(r2[key].t), expected=e)
         return
     x = mk_obj(cls, ts, scale)
     # x itself was given support [t0, tn]; restrict by ep
